@@ -60,6 +60,18 @@ def four_variant_enums(codes):
     return out
 
 
+def big_enum(traits, n=260, extra_attrs=''):
+    """a fieldless enum with more than 256 variants plus one payload variant at the end (a tag kept in a u8 wraps at 256):
+    -> (declaration, anyv(), vidx()) source text"""
+    names = [f'V{i}' for i in range(n)]
+    decl = f'#[derive(Educe)]\n#[educe({traits})]\n{extra_attrs}pub enum Big {{\n    ' + ', '.join(names) + f',\n    Last(u8),\n}}\n'
+    arms = ''.join(f'        {i} => Big::{nm},\n' for i, nm in enumerate(names))
+    anyv = f'pub fn anyv() -> Big {{\n    let s: u16 = kani::any();\n    kani::assume(s <= {n});\n    match s {{\n{arms}        _ => Big::Last(kani::any()),\n    }}\n}}\n'
+    varms = ''.join(f'        Big::{nm} => {i},\n' for i, nm in enumerate(names))
+    vidx = f'pub fn vidx(v: &Big) -> usize {{\n    match v {{\n{varms}        Big::Last(..) => {n},\n    }}\n}}\n'
+    return decl, anyv, vidx
+
+
 def quick_core(codes, maxlen=3):
     """Pairwise-style core: every code at first / middle / last position of a 3-field named and
     tuple struct and of each enum variant kind, plus unit/single shapes."""
